@@ -23,8 +23,9 @@ func doSelftest(args []string) int {
 		race    bool
 		jobs    [][2]string // property, batch
 	}{
-		{"atp", false, [][2]string{{"C06", "c06.mixed"}, {"C06", "c06.peer"}, {"C05", "c05.basic"}, {"C05", "c05.signals"}, {"C07", "c07.hostile"}, {"C07", "c07.garbage"}, {"C08", "c08.v3"}, {"C08", "c08.fatal"}, {"C09", "c09.session"}, {"C10", "c10.mutate"}, {"C11", "c11.random"}, {"C12", "c12.history"}, {"C15", "c15.pairs"}}},
-		{"schema", true, [][2]string{{"C13", "c13.ops"}, {"C13", "c13.steps"}}},
+		{"atp", false, [][2]string{{"C06", "c06.mixed"}, {"C06", "c06.peer"}, {"C05", "c05.basic"}, {"C05", "c05.signals"}, {"C07", "c07.hostile"}, {"C07", "c07.garbage"}, {"C08", "c08.v3"}, {"C08", "c08.fatal"}, {"C09", "c09.session"}, {"C10", "c10.mutate"}, {"C11", "c11.random"}, {"C12", "c12.history"}, {"C12", "c12.lib"}, {"C15", "c15.pairs"}, {"C05", "c05.v1"}, {"C06", "c06.peerv1"}}},
+		{"schema", true, [][2]string{{"C13", "c13.ops"}, {"C13", "c13.steps"}, {"C13", "c13.session"}}},
+		{"atp", true, [][2]string{{"C06", "c06.race"}, {"C07", "c07.race"}}},
 	}
 	bad := 0
 	total := 0
